@@ -64,13 +64,16 @@ func (f GitBranchFinder) Find(allEntries []Entry) (entries []Entry, err error) {
 	}
 
 	for _, change := range changes {
-		p := parser.NewParser(!f.filter.IsRelaxed(change.Path.Before.Name), f.schema, f.names)
+		// Each side is parsed the way its own path is configured: a file added on this branch
+		// has no "before" path, and a renamed file might move in or out of relaxed paths.
+		pBefore := parser.NewParser(!f.filter.IsRelaxed(change.Path.Before.Name), f.schema, f.names)
+		pAfter := parser.NewParser(!f.filter.IsRelaxed(change.Path.After.Name), f.schema, f.names)
 		var entriesBefore, entriesAfter []Entry
 		entriesBefore, err = readRules(
 			change.Path.Before.EffectivePath(),
 			change.Path.Before.Name,
 			bytes.NewReader(change.Body.Before),
-			p,
+			pBefore,
 			nil,
 		)
 		if err != nil {
@@ -80,7 +83,7 @@ func (f GitBranchFinder) Find(allEntries []Entry) (entries []Entry, err error) {
 			change.Path.After.EffectivePath(),
 			change.Path.After.Name,
 			bytes.NewReader(change.Body.After),
-			p,
+			pAfter,
 			f.allowedOwners,
 		)
 		if err != nil {
